@@ -259,6 +259,31 @@ def it_map(ctx, args, ci, dt):
     return IterV([ctx.call_value(clo, [x]) for x in it.items], 'mapped')
 
 
+def it_filter_map(ctx, args, ci, dt):
+    it = args[0]
+    out = []
+    for x in it.items:
+        r = ctx.call_value(args[1], [x])
+        if r.variant == 1:
+            out.append(r.fields[0].v)
+    return IterV(out, 'mapped')
+
+
+def it_filter(ctx, args, ci, dt):
+    it = args[0]
+    out = []
+    for x in it.items:
+        if ctx.branch(ctx.call_value(args[1], [Ref(Cell(x))])):
+            out.append(x)
+    return IterV(out, it.kind)
+
+
+def it_skip(ctx, args, ci, dt):
+    it = args[0]
+    n = ctx.concretize_int(args[1], 'skip')
+    return IterV(list(it.items[n:]), it.kind)
+
+
 def it_cloned(ctx, args, ci, dt):
     it = args[0]
     return IterV([clone_val(deref(x)) for x in it.items], it.kind)
@@ -707,6 +732,16 @@ def vec_remove(ctx, args, ci, dt):
     if i >= len(v.elems):
         raise panic('removal index out of bounds')
     return v.elems.pop(i).v
+
+
+def vec_retain(ctx, args, ci, dt):
+    v = args[0].cell.v
+    keep = []
+    for c in list(v.elems):
+        if ctx.branch(ctx.call_value(args[1], [Ref(c)])):
+            keep.append(c)
+    v.elems[:] = keep
+    return UNIT
 
 
 def vec_insert(ctx, args, ci, dt):
@@ -1719,7 +1754,7 @@ def install(ctx):
         M[k] = it_into_iter_ref_map
     M['<HashMap as IntoIterator>::into_iter'] = it_into_iter_map
     M['<HashSet as IntoIterator>::into_iter'] = it_into_iter_map
-    for k in ['Iter', 'IterMut', 'IntoIter', 'Rev', 'Enumerate', 'Map', 'Cloned', 'Drain', 'Values', 'Keys', 'ValuesMut', 'Peekable', 'Copied', 'Zip', 'Filter', 'Skip', 'Take', 'Chain']:
+    for k in ['Iter', 'IterMut', 'IntoIter', 'Rev', 'Enumerate', 'Map', 'Cloned', 'Drain', 'Values', 'Keys', 'ValuesMut', 'Peekable', 'Copied', 'Zip', 'Filter', 'FilterMap', 'Skip', 'Take', 'Chain']:
         M['<%s as Iterator>::next' % k] = it_next
         M['<%s as IntoIterator>::into_iter' % k] = it_identity
         M['<%s as Iterator>::rev' % k] = it_rev
@@ -1729,6 +1764,9 @@ def install(ctx):
         M['<%s as Iterator>::all' % k] = it_all
         M['<%s as Iterator>::enumerate' % k] = it_enumerate
         M['<%s as Iterator>::map' % k] = it_map
+        M['<%s as Iterator>::filter_map' % k] = it_filter_map
+        M.setdefault('<%s as Iterator>::filter' % k, it_filter)
+        M.setdefault('<%s as Iterator>::skip' % k, it_skip)
         M['<%s as Iterator>::cloned' % k] = it_cloned
         M['<%s as Iterator>::copied' % k] = it_cloned
         M['<%s as Iterator>::collect' % k] = it_collect
@@ -1823,6 +1861,7 @@ def install(ctx):
     M['Vec::clear'] = vec_clear
     M['Vec::pop'] = vec_pop
     M['Vec::remove'] = vec_remove
+    M['Vec::retain'] = vec_retain
     M['Vec::insert'] = vec_insert
     M['Vec::contains'] = vec_contains
     M['<Vec as Index>::index'] = vec_index
